@@ -55,8 +55,17 @@ let explore deps cbo threads budget =
   done;
   if !over then None
   else Some (Hashtbl.length seen, !nstuck, Hashtbl.fold (fun k () acc -> k :: acc) finals [])
+(* `S name;name;...` (names = blank-separated Latin-1 byte codes): sequential insertion into the
+   symbol-table model; prints for the i-th name the index of the first name with the same id *)
+let symtab_line ln =
+  let body = Stdlib.String.sub ln 2 (Stdlib.String.length ln - 2) in
+  let names = Stdlib.List.map (fun n -> Stdlib.List.map nat_of_int (ints_of_string n)) (split_on ';' body) in
+  match Symtab.classes names with
+  | Some cls -> print_endline (Stdlib.String.concat " " (Stdlib.List.map (fun c -> string_of_int (int_of_nat c)) cls))
+  | None -> print_endline "PANIC"
 let () =
   iter_lines (fun ln ->
+    if Stdlib.String.length ln >= 2 && Stdlib.String.sub ln 0 2 = "S " then symtab_line ln else
     let deps = Stdlib.List.map parse_unit (split_on ';' ln) in
     let n = Stdlib.List.length deps in
     if not (wf_depsb deps) then print_endline "BADCASE"
